@@ -70,15 +70,15 @@ func execOp(f []string) string {
 var findingOf = map[string]string{
 	"npm:bigpre": "F-C02-bigpre", "cargo:bigpre": "F-C02-bigpre", "go:bigpre": "F-C02-bigpre",
 	"npm:negident": "F-C02-neg-ident", "cargo:negident": "F-C02-neg-ident", "go:negident": "F-C02-neg-ident",
-	"pypi:post0":         "F-C02-pypi-post0",
-	"pypi:localpostdev":  "F-C02-pypi-local-postdev",
-	"pypi:localpre":      "F-C02-pypi-local-pre",
-	"pypi:localupper":    "F-C02-pypi-local-case",
+	"pypi:post0":          "F-C02-pypi-post0",
+	"pypi:localpostdev":   "F-C02-pypi-local-postdev",
+	"pypi:localpre":       "F-C02-pypi-local-pre",
+	"pypi:localupper":     "F-C02-pypi-local-case",
 	"maven:finalsnapshot": "F-C02-mvn-final-snapshot",
 	"maven:zerosnapshot":  "F-C02-mvn-zero-snapshot",
 	"maven:dotunknown":    "F-C02-mvn-dot-unknown",
 	"maven:zerodot":       "F-C02-mvn-zero-dot",
-	"gem:upper":          "F-C02-gem-case",
+	"gem:upper":           "F-C02-gem-case",
 }
 
 func okRes(r string) bool { return strings.HasPrefix(r, "ok ") || r == "ok" }
@@ -278,7 +278,13 @@ func run(c *fw.Ctx) {
 			}
 		}
 		for tries := 0; len(pool) < per && tries < per*30; tries++ {
-			addTree(genTree(c.Rng, eco))
+			t := genTree(c.Rng, eco)
+			addTree(t)
+			// neighbours: trees differing from t in one component (chains of up to three)
+			for k := 0; k < 3 && c.Rng.Intn(2) == 0; k++ {
+				t = neighbor(c.Rng, t, eco)
+				addTree(t)
+			}
 		}
 		pools[eco] = pool
 		n := len(pool)
